@@ -81,6 +81,13 @@ def run(data):
                 o = Prefix(op[1], op[2], name=op[3], symbol=op[4]) if (op[3] or op[4]) else Prefix(op[1], op[2])
             elif k == "dderive":
                 o = Dimension.derive(tracked[op[1]], op[2], op[3])
+            elif k == "djson":
+                # a Dimension document (as another process would have written it) decoded here: an anonymous construction, whatever name it carries
+                import json as _json
+                from measured.json import MeasuredJSONDecoder
+                n_ = len(next(iter(Dimension._known.values())).exponents)
+                exps = (list(op[1]) + [0] * n_)[:n_]
+                o = _json.loads(_json.dumps({"__measured__": "Dimension", "name": op[2], "symbol": op[3], "exponents": exps}), cls=MeasuredJSONDecoder)
             elif k == "ddefine":
                 o = Dimension.define(op[1], op[2])
             elif k == "danon":
